@@ -39,6 +39,7 @@ fn main() {
                 eprintln!("MACHINERY ERROR: reference self-test failed: {e}");
                 std::process::exit(2);
             }
+            vharness::checks::common::quiet_panics();
             let ctx = Ctx { tier, seed, only: get("--only"), scratch };
             let mut r = Report::new(
                 &id,
@@ -53,6 +54,10 @@ fn main() {
                 Ok(k) => k,
                 Err(p) => {
                     let msg = p.downcast_ref::<&str>().map(|s| s.to_string()).or_else(|| p.downcast_ref::<String>().cloned()).unwrap_or_else(|| "non-string panic".into());
+                    if vharness::checks::common::last_panic_in_harness() || vharness::checks::common::last_panic_file().is_empty() {
+                        eprintln!("MACHINERY ERROR: the harness itself panicked at {}: {msg}", vharness::checks::common::last_panic_file());
+                        std::process::exit(2);
+                    }
                     r.violations.push(vharness::report::Violation {
                         section: "panic-outside-cases".into(),
                         summary: format!("the code under test panicked while check {id} was preparing or running an enumeration (outside a single judged case): {msg}"),
